@@ -217,6 +217,27 @@ pub fn c06(a: &Args) {
             }
         }
     }
+    // many assumption sets in the middle of a cycle at the same time (one cursor each): 1 100 other sets between two pages of A0
+    {
+        let lines = vec!["o 1 0".to_string(), "t 2 0".to_string(), "1 2 1 0".to_string(), "1 2 -1 2 0".to_string()];
+        let text = lines.join("\n");
+        let n = 40u32;
+        if let Ok(mut d) = guarded(move || ddnnife::parser::distribute_building(lines, Some(n), None)) {
+            let a0 = vec![1i32];
+            let p1 = guarded(|| d.enumerate(&mut a0.clone(), 3)).ok().flatten().unwrap_or_default();
+            let mut others = 0usize;
+            'outer: for v in 3..=n as i32 { for w in (v + 1)..=n as i32 { for (sv, sw) in [(1, 1), (1, -1), (-1, 1)] {
+                if others >= 1100 { break 'outer; }
+                let mut al = vec![sv * v, sw * w];
+                if guarded(|| d.enumerate(&mut al, 1)).ok().flatten().map(|p| p.len()) != Some(1) { out.fail("enumeration-paging", &text, &format!("enum a {:?} l 1 -t {n}", al), "no page", "one configuration"); break 'outer; }
+                others += 1;
+            } } }
+            out.eval(Some(format!("{text}|many-keys")));
+            out.count("assumption_sets_mid_cycle", others as u64);
+            let p2 = guarded(|| d.enumerate(&mut a0.clone(), 3)).ok().flatten().unwrap_or_default();
+            if p1.len() != 3 || p2.len() != 3 || p2.iter().any(|c| p1.contains(c)) { out.fail("enumeration-paging", &text, &format!("enum a [1] l 3, then one page for each of {others} other assumption sets, then enum a [1] l 3 (-t {n})"), &format!("second page {:?}", p2.iter().map(|c| &c[..3]).collect::<Vec<_>>()), "three models not returned in the first page"); }
+        }
+    }
     // pages of more than 10 000 configurations through the stream and the library on models with 16 384 / 24 576 models
     // (amounts chosen so that what is left of a cycle hits multiples of 1 000 / 10 000 and the cycle boundary)
     for (idx, (lines, n, count)) in [
